@@ -50,6 +50,9 @@ func C01(p *engine.Prog, r *engine.Report) {
 	cacheRebuildRule(p, r, "C01-R5", validatorsCacheContainers(p))
 	r.Floor("C01-R5", 6, "container fields of ValidatorsCache")
 	c01R6(p, r, "C01-R6", entries)
+	// R7: the same block applied on any kind of derived view gives the same result
+	viewConstructorsAgreeRule(p, r, "C01-R7")
+	r.Floor("C01-R7", 3, "view constructors")
 }
 
 // c01R6: node-local chain position. The transition is a function of (prior state, block, parent
